@@ -40,7 +40,7 @@ class JournalGraph(nx.Graph):
 def excess_keys(case):
     """per topology index: sorted list of excess tuples occurring in the network."""
     jds = NC.joint_degrees(case["net"])
-    T = len(case["net"]["topos"])
+    T = len(NC.names(case["net"]))
     out = []
     for i in range(T):
         ks = set()
@@ -55,14 +55,16 @@ def excess_keys(case):
 
 def used_pairings(case):
     jds = NC.joint_degrees(case["net"])
-    used = [set() for _ in case["net"]["topos"]]
+    nms = NC.names(case["net"])
+    used = [set() for _ in nms]
     for ti, vs in case["net"]["motifs"]:
         t = case["net"]["topos"][ti]
-        for u, v in NC.motif_edges(t["kind"], vs):
+        for u, v, nm in NC.motif_edges_named(t, vs):
+            ci = nms.index(nm)
             a, b = list(jds[u]), list(jds[v])
-            a[ti] -= 1
-            b[ti] -= 1
-            used[ti].add(frozenset((tuple(a), tuple(b))))
+            a[ci] -= 1
+            b[ci] -= 1
+            used[ci].add(frozenset((tuple(a), tuple(b))))
     return used
 
 
@@ -76,22 +78,23 @@ def target_matrices(case):
         lam = tgt["lambda"]
         jds = NC.joint_degrees(case["net"])
         mats = {}
-        for ti, t in enumerate(case["net"]["topos"]):
+        nms = NC.names(case["net"])
+        for ci, cname in enumerate(nms):
             q = {}
             for mti, vs in case["net"]["motifs"]:
-                if mti != ti:
-                    continue
-                for u, v in NC.motif_edges(t["kind"], vs):
+                for u, v, nm in NC.motif_edges_named(case["net"]["topos"][mti], vs):
+                    if nm != cname:
+                        continue
                     for w in (u, v):
                         k = list(jds[w])
-                        k[ti] -= 1
+                        k[ci] -= 1
                         q[tuple(k)] = q.get(tuple(k), 0) + 1
             tot = sum(q.values()) or 1
             m = {}
             for a in q:
                 for b in q:
                     m[a + b] = (1 - lam) * q[a] * q[b] / tot / tot + (lam * q[a] / tot if a == b else 0.0)
-            mats[t["name"]] = m
+            mats[cname] = m
         return mats, {}
     holes = {}
     for ti, i, j, how in tgt.get("holes", []):
@@ -100,7 +103,7 @@ def target_matrices(case):
             if frozenset((a, b)) not in used[ti]:
                 holes[(ti, frozenset((a, b)))] = how
     mats = {}
-    for ti, t in enumerate(case["net"]["topos"]):
+    for ti, cname in enumerate(NC.names(case["net"])):
         m = {}
         for a in keys[ti]:
             for b in keys[ti]:
@@ -109,15 +112,17 @@ def target_matrices(case):
                     continue
                 lo, hi = (a, b) if a <= b else (b, a)
                 m[a + b] = 0.0 if h == "zero" else positive(tgt["seed"], ti, lo, hi)
-        mats[t["name"]] = m
+        mats[cname] = m
     return mats, holes
 
 
 @st.composite
 def mcmc_case(draw, tier, holes=False, maxN=None):
     big = tier == "thorough"
+    pool = [("clique", 2), ("clique", 3), ("clique", 4), ("cycle", 4), ("cycle", 5), ("split4", 4)]
     net = draw(NC.clean_network(maxN=maxN or (40 if not big else 120), minN=16, max_motifs=30 if not big else 120,
-                                min_topos=1, max_topos=3, min_motifs=6, min_rounds=2))
+                                min_topos=1, max_topos=3, min_motifs=6, min_rounds=2, topo_pool=pool))
+    net["node_order"] = draw(st.sampled_from(["sorted", "sorted", "by_motifs"]))
     L = draw(st.sampled_from([0, 0, 1, 2, 3, 5, 10, 25, 60]))
     nedges = sum(len(NC.motif_edges(net["topos"][ti]["kind"], vs)) for ti, vs in net["motifs"])
     if nedges <= 40 and draw(st.integers(0, 5)) == 5:
@@ -261,22 +266,23 @@ def motif_shapes_ok(state, case):
     for mid, (ti, vs) in enumerate(net["motifs"]):
         t = net["topos"][ti]
         es = by_id[mid]
-        orig = NC.motif_edges(t["kind"], vs)
-        if len(es) != len(orig):
-            return f"motif {mid} ({t['name']}) has {len(es)} edges, originally {len(orig)}"
-        if any(d.get(NN.TOPOLOGY) != t["name"] for _, d in es):
-            return f"motif {mid}: edge topologies {[d.get(NN.TOPOLOGY) for _, d in es]} != {t['name']}"
+        orig = nx.Graph()
+        for u, v, nm in NC.motif_edges_named(t, vs):
+            orig.add_edge(u, v, name=nm)
+        if len(es) != orig.number_of_edges():
+            return f"motif {mid} ({t['name']}) has {len(es)} edges, originally {orig.number_of_edges()}"
         if any(len(e) != 2 for e, _ in es):
             return f"motif {mid} contains a self-loop"
-        H = nx.Graph([tuple(e) for e, _ in es])
-        if H.number_of_nodes() != t["size"] or H.number_of_edges() != len(orig):
-            return f"motif {mid} ({t['name']}) now spans {H.number_of_nodes()} vertices / {H.number_of_edges()} distinct edges: {sorted(map(sorted, H.edges()))}"
-        if t["kind"] == "clique":
-            ok = H.number_of_edges() == t["size"] * (t["size"] - 1) // 2
-        else:
-            ok = nx.is_connected(H) and all(d == 2 for _, d in H.degree())
-        if not ok:
-            return f"motif {mid} ({t['name']}) is no longer a {t['name']}: edges {sorted(map(sorted, H.edges()))}"
+        H = nx.Graph()
+        for e, d in es:
+            u, v = tuple(e)
+            H.add_edge(u, v, name=d.get(NN.TOPOLOGY))
+        if H.number_of_nodes() != orig.number_of_nodes() or H.number_of_edges() != orig.number_of_edges():
+            return (f"motif {mid} ({t['name']}) now spans {H.number_of_nodes()} vertices / {H.number_of_edges()} distinct edges: "
+                    f"{sorted(map(sorted, H.edges()))}")
+        if not nx.is_isomorphic(H, orig, edge_match=lambda a, b: a["name"] == b["name"]):
+            return (f"motif {mid} ({t['name']}) no longer has its original shape: edges "
+                    f"{sorted((sorted((u, v)), d['name']) for u, v, d in H.edges(data=True))}")
     return None
 
 
